@@ -243,6 +243,17 @@ theorem while_status_is_last_body (fuel : Nat) (s : St) (until_ : Bool) (cond bo
   obtain ⟨s1, r, e'⟩ := x
   cases r <;> simp
 
+/-- a command without a name (only assignments and/or words that expand to nothing) has the status of
+    the last command substitution it performed — those of the assignments after those of the words —
+    and zero if it performed none -/
+theorem absent_command_status (fuel : Nat) (s : St) (w a : Option Nat) :
+    (execCmd (fuel+1) s (.absent w a)).1.status =
+      match a, w with
+      | some x, _ => x
+      | none, some y => y
+      | none, none => 0 := by
+  cases a <;> cases w <;> simp [execCmd, finishSimple] <;> split <;> rfl
+
 /-! ### the command search order -/
 
 /-- special built-in, then function, then other built-in: a function named like the special
